@@ -264,6 +264,17 @@ class extract_visitor(NodeVisitor):
         self.flow = self.make_flow('join', [orelse])
         self.flow.scope.flow = self.flow
 
+    def alias_loc(self, node, alias, name, start):
+        # type: (ast.Import | ast.ImportFrom, ast.alias, str, tuple[int, int]) -> tuple[int, int]
+        # where the parser records the extent of an alias, the bound name is
+        # its last token (`as name`) or its first; the same word may occur
+        # earlier in the statement: from datetime import datetime
+        if getattr(alias, 'end_col_offset', None) is None or getattr(alias, 'lineno', None) is None:
+            return self.top.find_id_loc(name, start, end_line=getattr(node, 'end_lineno', None))
+        if alias.asname:
+            return alias.end_lineno, alias.end_col_offset - len(name)  # type: ignore[return-value]
+        return alias.lineno, alias.col_offset
+
     def visit_Import(self, node):
         # type: (ast.Import) -> None
         loc = get_expr_end(node)
@@ -279,7 +290,7 @@ class extract_visitor(NodeVisitor):
                 iname = name
                 self.top._imports.append(a.name)
 
-            declared_at = self.top.find_id_loc(name, start, end_line=getattr(node, 'end_lineno', None))
+            declared_at = self.alias_loc(node, a, name, start)
             self.flow.add_name(ImportedName(name, loc, declared_at, iname, None,
                                             qualified=qualified))
 
@@ -289,7 +300,7 @@ class extract_visitor(NodeVisitor):
         start = np(node)
         for a in node.names:
             name = a.asname or a.name
-            declared_at = self.top.find_id_loc(name, start, end_line=getattr(node, 'end_lineno', None))
+            declared_at = self.alias_loc(node, a, name, start)
             module = '.' * node.level + (node.module or '')
             if name == '*':
                 self.top._star_imports.append((loc, declared_at, module, self.flow))
